@@ -244,6 +244,10 @@ Definition ro_duration (rc : xml) : acc Z :=
   | AVal l => sum_durations 0%Z (map so_xml l)
   end.
 
+(* RunningOrder.script / .body evaluate the story listing first *)
+Definition guard_stories {A} (rc : xml) (v : A) : acc A :=
+  match ro_stories rc with AErr e => AErr e | _ => AVal v end.
+
 End Timing.
 
 (* ---- script and body *)
@@ -274,3 +278,6 @@ Definition story_body (x : xml) : list body_el :=
 
 Definition ro_script (rc : xml) : list str := flat_map story_script (findall t_story (kids_of rc)).
 Definition ro_body (rc : xml) : list body_el := flat_map story_body (findall t_story (kids_of rc)).
+
+Definition ro_script_acc (o : oracles) (rc : xml) : acc (list str) := guard_stories o rc (ro_script rc).
+Definition ro_body_acc (o : oracles) (rc : xml) : acc (list body_el) := guard_stories o rc (ro_body rc).
